@@ -209,7 +209,9 @@ theorem Recorder.report_ok' (r : Recorder) (len : Int → Option Nat) (rp : Repo
 
 /-- The requested form: `r.Inv`, `0 < M`, `rp.addr < r.coresize`, and for spawn reports
     `len rp.wi = some n` — plus the ADDED hypothesis `rp.addr.toNat + n ≤ 2^64` (without it the
-    model's wrapping 64-bit addition differs from `(addr + i) % M`, see `spawn_wrap_counterexample`). -/
+    model's wrapping 64-bit addition differs from `(addr + i) % M` on cores above 2^63 cells, see
+    `Recorder.wrap_counterexample`; on cores up to 2^63 cells it always holds, see
+    `Recorder.spawn_any_offset` and `Recorder.reports_ok_small`). -/
 theorem Recorder.report_ok (r : Recorder) (len : Int → Option Nat) (rp : Report)
     (h : r.Inv) (hpos : 0 < r.coresize.toNat) (ha : rp.addr < r.coresize)
     (hspawn : rp.typ = .warriorSpawn → ∃ n, len rp.wi = some n ∧ rp.addr.toNat + n ≤ 2 ^ 64) :
@@ -229,9 +231,11 @@ theorem Recorder.report_ok (r : Recorder) (len : Int → Option Nat) (rp : Repor
   obtain ⟨r', e, inv, cs, rr, v⟩ := r.report_ok' len rp h hok
   exact ⟨r', e, inv, cs, rr, fun a _ => v a⟩
 
-/-- Why the no-wrap hypothesis is needed: with `M = 2^64-1`, `addr = 2^64-2`, `i = 2` the model
-    writes address 0 while `(addr + i) % M = 1`. -/
-theorem spawn_wrap_counterexample :
+/-- Why the no-wrap hypothesis is needed for the RECORDER on cores above 2^63 cells (this is the
+    recorder's own loop `(addr + i) % coresize` over an address that is already below the core
+    size; it does not depend on how `SpawnWarrior` treats its offset): with `M = 2^64-1`,
+    `addr = 2^64-2 < M`, `i = 2` the model writes address 0 while `(addr + i) % M = 1`. -/
+theorem Recorder.wrap_counterexample :
     ((0xFFFFFFFFFFFFFFFE + UInt64.ofNat 2) % (0xFFFFFFFFFFFFFFFF : UInt64)).toNat = 0 ∧
     ((0xFFFFFFFFFFFFFFFE : UInt64).toNat + 2) % (0xFFFFFFFFFFFFFFFF : UInt64).toNat = 1 := by
   decide
@@ -282,6 +286,21 @@ theorem Recorder.report_ok_unhyp_false :
     ⟨2, by decide, by decide⟩
   rw [if_neg hm, if_pos hs] at h1
   exact absurd h1 (by decide)
+
+/-- **`SpawnWarrior` at any offset, seen by the recorder.** `SpawnWarrior` reduces its offset
+    modulo the core size and reports `Address: startOffset % s.m`; so for EVERY 64-bit offset,
+    on a core of at most 2^63 cells and for a warrior of at most 2^63 instructions, the spawn
+    report satisfies what `Recorder.report_ok` asks of it: address below the core size and no
+    wrap-around in the recorder's loop. -/
+theorem Recorder.spawn_any_offset (off m : UInt64) (n : Nat) (hm0 : 0 < m.toNat)
+    (hm : m.toNat ≤ 2 ^ 63) (hn : n ≤ 2 ^ 63) :
+    off % m < m ∧ (off % m).toNat + n ≤ 2 ^ 64 := by
+  have h : (off % m).toNat < m.toNat := by rw [UInt64.toNat_mod]; exact Nat.mod_lt _ hm0
+  exact ⟨UInt64.lt_iff_toNat_lt.mpr h, by omega⟩
+
+example : (0xFFFFFFFFFFFFFFFF % 8000 : UInt64) < 8000 ∧
+    (0xFFFFFFFFFFFFFFFF % 8000 : UInt64).toNat + 100 ≤ 2 ^ 64 :=
+  Recorder.spawn_any_offset 0xFFFFFFFFFFFFFFFF 8000 100 (by decide) (by decide) (by decide)
 
 /-! ## reset -/
 
@@ -335,5 +354,24 @@ theorem Recorder.reports_ok (r : Recorder) (len : Int → Option Nat) (rps : Lis
     · exact fun _ => ha'
   obtain ⟨r', e, inv, cs, rr, v⟩ := Recorder.reports_ok' len rps r h hok
   exact ⟨r', e, inv, cs, rr, fun a _ => v a⟩
+
+/-- Stream version for cores of at most 2^63 cells: NO no-wrap hypothesis, only addresses below
+    the core size and spawn reports that name existing warriors of at most 2^63 instructions. -/
+theorem Recorder.reports_ok_small (r : Recorder) (len : Int → Option Nat) (rps : List Report)
+    (h : r.Inv) (hpos : 0 < r.coresize.toNat) (hsmall : r.coresize.toNat ≤ 2 ^ 63)
+    (hall : ∀ rp ∈ rps, rp.addr < r.coresize ∧
+      (rp.typ = .warriorSpawn → ∃ n, len rp.wi = some n ∧ n ≤ 2 ^ 63)) :
+    ∃ r', rps.foldlM (fun r rp => Recorder.report r len rp) r = .ok r' ∧ r'.Inv ∧
+      r'.coresize = r.coresize ∧ r'.recordReads = r.recordReads ∧
+      ∀ a < r.coresize.toNat,
+        (r'.state.getD a .empty, r'.color.getD a (-1)) =
+          rps.foldl (lastOp r.coresize.toNat len r.recordReads)
+            (fun a => (r.state.getD a .empty, r.color.getD a (-1))) a := by
+  refine Recorder.reports_ok r len rps h hpos (fun rp hrp => ?_)
+  obtain ⟨ha, hspawn⟩ := hall rp hrp
+  refine ⟨ha, fun ht => ?_⟩
+  obtain ⟨n, hn, hle⟩ := hspawn ht
+  have ha' : rp.addr.toNat < r.coresize.toNat := UInt64.lt_iff_toNat_lt.mp ha
+  exact ⟨n, hn, by omega⟩
 
 end Gmars
